@@ -44,6 +44,18 @@ CHECKS = {
  'C07': dict(tech=A + ' (symbol table only in this round)', cat='model_checking',
              text='PARTIAL: element symbol <-> atomic number bijection over the real element table (AtomicNumberToSymbol for every 32-bit Z, SymbolToAtomicNumber for all 107 symbols, NULL and non-symbols). The string-to-composition part (CompoundParserSimple) has no solver verdict: CBMC produced 33 M clauses for the one-character formula even with every libc piece modelled, see DESIGN.md C07',
              note='the parser fixes (locale restore, unweighable elements, failure-path leaks) were confirmed natively (valgrind) and are recorded in known_findings.json; they are NOT yet guarded by a solver check'),
+ 'C03': dict(tech='composition: ' + B + ' and ' + A + ' (every per-topic obligation carries the error protocol of the function it encodes) + the error module under CBMC', cat='model_checking',
+             text='for each exported function that some obligation encodes: success <=> empty slot, sentinel <=> exactly one error with an enum code and a non-empty literal message, no store over an existing error, same value with error == NULL, no domain error on success paths; the error module (set/propagate/clear/copy/free) for every slot state; evidence lists the exported functions that no obligation encodes',
+             note='quick tier: cross sections, Kissel cascade, closed forms, line groups, scalar accessors, interpolation, compounds, Auger, symbols, crystal containers, catalogues; jump-ratio XRF and crystal diffraction are swept in the thorough tier; "finite" is claimed as absence of domain errors, not as absence of overflow'),
+ 'C04': dict(tech='composition: Engine B bounds/NULL/overflow side obligations + CBMC pointer checks and --memory-leak-check on every allocating unit that could be encoded', cat='model_checking',
+             text='table indices inside declared dimensions and per-element rows inside [0,N) for every encoded query (any arguments, any table contents); crystal collections (inductive step), catalogue lookups, element symbols and the error module: no out-of-bounds/NULL/use-after-free/double free and no leak on success and failure paths',
+             note='NOT covered: the formula scanner CompoundParserSimple (no solver verdict; valgrind only), Crystal_ReadFile, add_compound_data; histories of the non-container API by the frame argument of C16'),
+ 'C16': dict(tech='frame condition: Engine B evaluation from arbitrary table contents shows no read of mutable statics / no write to static storage; LLVM-IR scan of every unit for stores to statics and process-global libc calls; locale restoration proved on CompoundParser', cat='model_checking',
+             text='every encoded query is a function of its arguments and the (immutable) tables: no obligation finds a read of mutable static state or a write to static storage; the only process-global libc state touched is the numeric locale inside CompoundParser, proved restored on every path',
+             note='reduction R-frame (DESIGN.md 2.5); pointer-indirect writes are covered only for functions evaluated by Engine B; crystal mutators are the documented exception'),
+ 'C17': dict(tech='thread-modular frame condition (same obligations as C16); no interleaving is explored (CBMC 6.11 refuses threads+pointers, measured)', cat='other',
+             text='sufficient condition for race freedom under any schedule and thread count: disjoint write sets (caller-owned/fresh objects only) and reads of immutable data only; one known finding: setlocale in CompoundParser',
+             note='no schedule enumerated, no race detector; malloc/free assumed thread-safe'),
 }
 NA = {
  'C19': 'no symbolic engine for Java/JVM bytecode is installed (no JBMC/SPF); a hand-written Java->SMT translator for 5900 lines using ByteBuffer I/O, exceptions and collections is out of reach; see DESIGN.md C19',
